@@ -14,7 +14,9 @@ OPEN_TYPE_oer_get(const asn_codec_ctx_t *opt_codec_ctx,
     asn_type_selector_result_t selected;
     void *memb_ptr;   /* Pointer to the member */
     void **memb_ptr2; /* Pointer to that pointer */
+    const asn_TYPE_member_t *inner_elm; /* The selected alternative */
     void *inner_value;
+    void **inner_value2; /* What the decoder of the alternative gets */
     asn_dec_rval_t rv;
     size_t ot_ret;
 
@@ -48,12 +50,17 @@ OPEN_TYPE_oer_get(const asn_codec_ctx_t *opt_codec_ctx,
         }
     }
 
-    inner_value =
-        (char *)*memb_ptr2
-        + elm->type->elements[selected.presence_index - 1].memb_offset;
+    inner_elm = &elm->type->elements[selected.presence_index - 1];
+    inner_value = (char *)*memb_ptr2 + inner_elm->memb_offset;
+    if(inner_elm->flags & ATF_POINTER) {
+        /* The alternative is a pointer: its decoder allocates the value */
+        inner_value2 = (void **)inner_value;
+    } else {
+        inner_value2 = &inner_value;
+    }
 
     ot_ret = oer_open_type_get(opt_codec_ctx, selected.type_descriptor, NULL,
-                               &inner_value, ptr, size);
+                               inner_value2, ptr, size);
     switch(ot_ret) {
     default:
         if(CHOICE_variant_set_presence(elm->type, *memb_ptr2,
@@ -83,8 +90,12 @@ OPEN_TYPE_oer_get(const asn_codec_ctx_t *opt_codec_ctx,
             ASN_STRUCT_FREE(*selected.type_descriptor, inner_value);
             *memb_ptr2 = NULL;
         } else {
-            ASN_STRUCT_FREE_CONTENTS_ONLY(*selected.type_descriptor,
-                                          inner_value);
+            if(inner_elm->flags & ATF_POINTER) {
+                ASN_STRUCT_FREE(*selected.type_descriptor, *inner_value2);
+            } else {
+                ASN_STRUCT_FREE_CONTENTS_ONLY(*selected.type_descriptor,
+                                              inner_value);
+            }
             memset(*memb_ptr2, 0, specs->struct_size);
         }
     }
